@@ -165,6 +165,14 @@ def check_g4(pid, tier):
 
             crashes.append(f"codec same-name: {type(e).__name__}: {e}\n{traceback.format_exc()[-600:]}")
     if pid == "C03":
+        from . import c11 as _c11
+
+        for r in runner.run_pool(_c11.literal_return_task, [(pid,)], chunks=1):
+            if "crash" in r:
+                crashes.append(r["crash"] + " @ " + r["payload"] + "\n" + r["trace"][-500:])
+            else:
+                obs.extend(r["obligations"])
+    if pid == "C03":
         try:
             from . import c17 as _c17e
 
